@@ -71,6 +71,22 @@ def plugin_order_table():
     return rows
 
 
+def pki_probe():
+    """C11: the byte literals inside proxy.common.pki.get_ext_config / ssl_config, observed by probing
+    (p1 = one empty name, p2 = two empty names: p1 = header + prefix, p2 = p1 + COMMA + prefix)."""
+    from proxy.common import pki
+    from proxy.common.constants import COMMA
+    p1, p2 = pki.get_ext_config([''], None), pki.get_ext_config(['', ''], None)
+    prefix = p2[len(p1) + len(COMMA):]
+    header = p1[:len(p1) - len(prefix)]
+    eku = pki.get_ext_config(None, '')
+    with pki.ssl_config([''], None) as (path, _has):
+        with open(path, 'rb') as f:
+            content = f.read()
+    section = content[len(pki.DEFAULT_CONFIG):len(content) - len(p1)]
+    return header, prefix, eku, section, pki.DEFAULT_CONFIG
+
+
 def collect():
     from proxy.common import constants as C
     from proxy.http.websocket.frame import WebsocketFrame
@@ -138,6 +154,14 @@ def collect():
     from proxy.http.headers import httpHeaders as _HH
     B('hdrProxyAuthorization', _HH.PROXY_AUTHORIZATION)
     B('hdrProxyConnection', _HH.PROXY_CONNECTION)
+    # C11: pki ext-file / config literals
+    _h, _p, _e, _s, _d = pki_probe()
+    B('comma', C.COMMA)
+    B('pkiSanHeader', _h)
+    B('pkiSanEntryPrefix', _p)
+    B('pkiEkuHeader', _e)
+    B('pkiProxySection', _s)
+    B('pkiDefaultConfig', _d)
     out.append(('pluginOrderTable',
                 'List (List (List UInt8 × List UInt8) × List UInt8 × List (List UInt8) × List (List UInt8))',
                 '[' + ',\n  '.join('([%s], %s, [%s], [%s])' % (
